@@ -124,7 +124,11 @@ TransKind(Z, i) ==
   IN IF a.off = b.off THEN "same-offset"
      ELSE IF a.dst = b.dst THEN "non-dst-change"
      ELSE IF b.dst THEN "std-to-dst" ELSE "dst-to-std"
+\* zic writes daylight saving time that never ends as a rule whose end coincides with the next start (0/0,J365/25): the
+\* standard time of such a footer is never in force
+AllYearDst(F) == Eq(EndUTC(F, 2001), StartUTC(F, 2002)) /\ Eq(EndUTC(F, 2003), StartUTC(F, 2004))
 RuleShape(F) == IF F.kind = "fixed" THEN "fixed"
+                ELSE IF AllYearDst(F) THEN "all-year-dst"
                 ELSE IF F.dst < F.std THEN "negative-dst"
                 ELSE IF Lt(StartUTC(F, 2001), EndUTC(F, 2001)) THEN "north" ELSE "south"
 \* where t sits relative to the rule transitions
